@@ -25,6 +25,7 @@ def run(ctx):
     pr.wrappers(rep, 'R05.w', prog, cg)
     pr.numeric_decode_is_total(rep, 'R05.n', prog, cg)
     pr.length_delimited_framing(rep, 'R05.f', prog, cg)
+    pr.encode_capacity_and_key_range(rep, 'R05.k', prog, cg)
     # no decoder guard is stricter than the operation needs (a value / unknown field ending exactly at the end of the input is complete)
     import audit
     import scopes
